@@ -36,6 +36,8 @@ def extend(tier, seed, ob, failures, coverage, facts=None):
         stats["writeseq_calls_compared"] = scompared
         stats["writeseq_matched_paths"] = ssummary
         stats["writeseq_observed_samples"] = ssamples
+    ok_open, text_open = K.open_findings_tie()
+    ob.add("tie:c12-open-findings", ok_open, text_open)
     stats["calls_compared_with_model"] = compared
     stats["model_class_sequences"] = {k: ",".join(v) for k, v in model.items()}
     stats["tick_signatures"] = {f"{c['id']}:{b['i']}:{b['callkind']}": f"{b['ticks']} ({b['labels']})" for c in cases for b in c["base"]}
